@@ -311,6 +311,40 @@ func TestLinalg(t *testing.T) {
 			r.ok("")
 		}
 	}
+	// entries below the library's equality tolerance (1e-240) are still numbers: a kernel that treats them as zero is
+	// wrong as soon as the other factor is large (seed C16-5); also for Dot
+	for _, tiny := range []float64{1e-250, -5e-241, 1e-240, 3e-300} {
+		a := Ref{Shape: []int{2, 2}, Data: []float64{tiny, 2, 3, tiny}}
+		b := Ref{Shape: []int{2, 2}, Data: []float64{1e260, 1, 1, 1e270}}
+		for _, sw := range []bool{false, true} {
+			x, y := a, b
+			if sw {
+				x, y = b, a
+			}
+			guard(r, "MatMul", func() {
+				want, _ := refMatMul(x, y)
+				got, err := toT(x, false).MatMul(toT(y, false))
+				if err != nil {
+					r.fail("MatMul:error", fmt.Sprintf("tiny %v: %v", tiny, err))
+				} else if msg := eqRef(got, want, 1e-12); msg != "" {
+					r.fail("MatMul", fmt.Sprintf("tiny entries %v (swapped %v): %s", tiny, sw, msg))
+				} else {
+					r.ok("MatMul tiny entries")
+				}
+			})
+			guard(r, "Dot", func() {
+				got, err := toT(x, false).Dot(toT(y, false))
+				want := Ref{Shape: []int{2}, Data: []float64{x.Data[0]*y.Data[0] + x.Data[1]*y.Data[1], x.Data[2]*y.Data[2] + x.Data[3]*y.Data[3]}}
+				if err != nil {
+					r.fail("Dot:error", fmt.Sprintf("tiny %v: %v", tiny, err))
+				} else if msg := eqRef(got, want, 1e-12); msg != "" {
+					r.fail("Dot", fmt.Sprintf("tiny entries %v (swapped %v): %s", tiny, sw, msg))
+				} else {
+					r.ok("Dot tiny entries")
+				}
+			})
+		}
+	}
 	// Transpose with two and three batch dimensions (every tier): a permutation of the batch positions leaves the shape
 	// and every rank <= 3 case intact (seed C04-3)
 	for _, sa := range shapes(4, 5, 2) {
